@@ -11,7 +11,13 @@
  *                                        loop is idle for the k-th time; after the last phase: exit)
  *   on <ctx> <bytes> <action>            trigger: fired once, from <ctx>'s read callback, when <ctx> has been
  *                                        offered >= <bytes> bytes in total; order = (bytes, line order)
- *   action := write Y K | hclose Y | pclose Y | add Y | shut Y | wake | exit
+ *   action := write Y K | hclose Y | pclose Y | add Y | shut Y | wake | exit | reset Y
+ *   cfg ... timer=1                       install a timer of interval 0 (muggle_evloop_set_timer_interval(0) and a
+ *                                        timer callback): a tick after every pass; the kernel calls are then not
+ *                                        turned into idle wake-ups (n = 0 returns reach the loop)
+ *   tphase / tdo <action>                timer phases: the k-th tick runs the k-th one, the tick after the last exits
+ *   reset Y: the peer of a socket context resets the connection (TCP: close with SO_LINGER 0; unix: close while a
+ *   byte written by the context is unread): the context's read fails with ECONNRESET behind the pending data
  *
  * poll / select / epoll_wait / epoll_ctl are wrapped (-Wl,--wrap) to LOG what the loop handed to the
  * kernel and what the kernel reported ("K" lines).  The only thing the wrapper adds is idleness
@@ -32,7 +38,10 @@
 #include <netinet/in.h>
 #include <netinet/tcp.h>
 #include <arpa/inet.h>
+#include <pthread.h>
+#include <stdlib.h>
 #include "muggle/c/event/event_loop.h"
+#include "muggle/c/dsaa/linked_list.h"
 
 int __real_poll(struct pollfd *fds, nfds_t nfds, int timeout);
 int __real_select(int nfds, fd_set *r, fd_set *w, fd_set *e, struct timeval *tv);
@@ -43,7 +52,7 @@ int __real_epoll_ctl(int epfd, int op, int fd, struct epoll_event *event);
 #define MAXT 256
 #define MAXFD 1024
 enum { K_PIPE, K_UNIX, K_TCP };
-enum { A_WRITE, A_HCLOSE, A_PCLOSE, A_ADD, A_SHUT, A_WAKE, A_EXIT, A_BAD };
+enum { A_WRITE, A_HCLOSE, A_PCLOSE, A_ADD, A_SHUT, A_WAKE, A_EXIT, A_RESET, A_BAD };
 typedef struct { int kind, y, k; } Act;
 typedef struct { int ctx, bytes, fired, ord; Act a; } Trig;
 typedef struct { Act a; int phase; } PAct;
@@ -52,20 +61,21 @@ typedef struct {
 	muggle_event_context_t ctx; /* must stay first: callbacks cast back */
 	int id, kind, declared;
 	int fd, peer;
-	int peer_open, eof, added, reg_ok, shut, closed_cb, clear_cb, read_after_close;
+	int peer_open, eof, added, reg_ok, shut, closed_cb, clear_cb, read_after_close, rst;
 	long offered, qexp;
 } C;
 
 static C cs[MAXC];
 static Trig trigs[MAXT]; static int ntrig;
 static PAct pacts[MAXT]; static int npact; static int nphase; /* phases 0..nphase-1 */
-static int cfg_hints, cfg_pool;
+static PAct tacts[MAXT]; static int ntact; static int ntphase; /* timer phases 1..ntphase */
+static int cfg_hints, cfg_pool, cfg_timer, g_tphase;
 static int fd2id[MAXFD];
 static muggle_event_loop_t *g_ev;
 static int g_loop_active, g_idle, g_phase, g_be, g_stuck;
 static int ep_reg[MAXC];
 
-static const char *act_name[] = { "write", "hclose", "pclose", "add", "shut", "wake", "exit", "?" };
+static const char *act_name[] = { "write", "hclose", "pclose", "add", "shut", "wake", "exit", "reset", "?" };
 
 /* ------------------------------------------------------------------ parsing */
 static int parse_action(char *s, Act *a)
@@ -83,14 +93,26 @@ static int parse_action(char *s, Act *a)
 	if (!strcmp(w, "pclose")) { a->kind = A_PCLOSE; return 1; }
 	if (!strcmp(w, "add")) { a->kind = A_ADD; return 1; }
 	if (!strcmp(w, "shut")) { a->kind = A_SHUT; return 1; }
+	if (!strcmp(w, "reset")) { a->kind = A_RESET; return 1; }
 	return 0;
+}
+
+/* edge scenarios (one-line cases "edge key=value ..."): NULL-callback matrix and refused registrations, no model */
+static int is_edge, e_n, e_closed, e_data, e_ticks, e_file, e_dup, e_foreign, e_tick_seen;
+static char e_nocb[16];
+static int e_has(char c) { return strchr(e_nocb, c) == NULL; }     /* callback c is installed */
+static int e_int(const char *line, const char *key, int dflt)
+{
+	const char *p = strstr(line, key);
+	return p ? atoi(p + strlen(key)) : dflt;
 }
 
 static void case_begin(void)
 {
+	is_edge = 0;
 	memset(cs, 0, sizeof cs);
-	ntrig = npact = 0; nphase = 1;
-	cfg_hints = 8; cfg_pool = 0;
+	ntrig = npact = 0; nphase = 1; ntact = 0; ntphase = 0;
+	cfg_hints = 8; cfg_pool = 0; cfg_timer = 0;
 	alarm(8);
 }
 
@@ -98,10 +120,24 @@ static void case_line(char *line)
 {
 	char w[32];
 	if (sscanf(line, "%31s", w) != 1) return;
+	if (!strcmp(w, "edge")) {
+		is_edge = 1;
+		e_n = e_int(line, " n=", 1); if (e_n < 1) e_n = 1; if (e_n > 8) e_n = 8;
+		e_closed = e_int(line, "closed=", 0); e_data = e_int(line, "data=", 0);
+		e_ticks = e_int(line, "ticks=", 4); if (e_ticks < 1) e_ticks = 1; if (e_ticks > 64) e_ticks = 64;
+		e_file = e_int(line, "file=", 0) == 1; e_dup = e_int(line, "dup=", 0) == 1; e_foreign = e_int(line, "foreign=", 0) == 1;
+		cfg_hints = e_int(line, "hints=", 16); cfg_pool = e_int(line, "pool=", 0) == 1;
+		const char *p = strstr(line, "nocb=");
+		e_nocb[0] = 0;
+		if (p) { int k = 0; for (p += 5; *p && *p != ' ' && k < 15; p++) e_nocb[k++] = *p; e_nocb[k] = 0; }
+		return;
+	}
+	if (is_edge) return;
 	if (!strcmp(w, "cfg")) {
 		char *p;
 		if ((p = strstr(line, "hints="))) cfg_hints = atoi(p + 6);
 		if ((p = strstr(line, "pool="))) cfg_pool = atoi(p + 5);
+		if ((p = strstr(line, "timer="))) cfg_timer = atoi(p + 6) == 1;
 	} else if (!strcmp(w, "ctx")) {
 		int id; char k[32];
 		if (sscanf(line, "%*s %d %31s", &id, k) == 2 && id >= 1 && id < MAXC) {
@@ -110,6 +146,11 @@ static void case_line(char *line)
 		}
 	} else if (!strcmp(w, "phase")) {
 		nphase++;
+	} else if (!strcmp(w, "tphase")) {
+		ntphase++;
+	} else if (!strcmp(w, "tdo")) {
+		if (ntphase == 0) ntphase = 1;
+		if (ntact < MAXT && parse_action(line + 3, &tacts[ntact].a)) { tacts[ntact].phase = ntphase; ntact++; }
 	} else if (!strcmp(w, "do")) {
 		if (npact < MAXT && parse_action(line + 2, &pacts[npact].a)) { pacts[npact].phase = nphase - 1; npact++; }
 	} else if (!strcmp(w, "on")) {
@@ -177,6 +218,17 @@ static void settle_fin(C *c)
 	die("tcp fin did not arrive");
 }
 
+static void settle_rst(C *c)
+{
+	if (c->fd < 0) return;
+	for (int i = 0; i < 200000; i++) {
+		struct pollfd p; p.fd = c->fd; p.events = POLLIN; p.revents = 0;
+		if (__real_poll(&p, 1, 0) > 0 && (p.revents & POLLERR)) return;
+		sched_yield();
+	}
+	die("reset did not arrive");
+}
+
 /* ------------------------------------------------------------------ actions */
 static void doact(Act *a)
 {
@@ -222,6 +274,21 @@ static void doact(Act *a)
 			if (c->kind != K_PIPE) c->shut = 1;
 		} else res = "skip";
 		break;
+	case A_RESET:
+		/* sockets only, peer still open, context neither shut down nor closed (harness rule, as in the model) */
+		if (c->peer_open && c->kind != K_PIPE && !c->shut && !c->closed_cb) {
+			if (c->kind == K_TCP) {
+				struct linger lg = { 1, 0 };
+				setsockopt(c->peer, SOL_SOCKET, SO_LINGER, &lg, sizeof lg);
+			} else {
+				/* unix: a byte written BY THE CONTEXT stays unread in the peer's queue when the peer closes */
+				char one = 'r';
+				ssize_t r = write(c->fd, &one, 1); (void)r;
+			}
+			close(c->peer); c->peer_open = 0; c->eof = 1; c->rst = 1;
+			settle_rst(c);
+		} else res = "skip";
+		break;
 	case A_WAKE:
 		muggle_evloop_wakeup(g_ev);
 		printf("a wake ok\n");
@@ -264,6 +331,14 @@ static void on_close(muggle_event_loop_t *ev, muggle_event_context_t *ctx)
 }
 static void on_clear(muggle_event_loop_t *ev, muggle_event_context_t *ctx) { C *x = (C *)ctx; x->clear_cb++; printf("x %d\n", x->id); }
 static void on_exit_cb(muggle_event_loop_t *ev) { printf("e\n"); }
+static void on_timer(muggle_event_loop_t *ev)
+{
+	printf("t\n");
+	g_tphase++;
+	if (g_tphase <= ntphase) {
+		for (int i = 0; i < ntact; i++) if (tacts[i].phase == g_tphase && act_valid(&tacts[i].a)) doact(&tacts[i].a);
+	} else { Act a = { A_EXIT, 0, 0 }; doact(&a); }
+}
 static void on_wake(muggle_event_loop_t *ev)
 {
 	printf("w\n");
@@ -301,7 +376,7 @@ int __wrap_poll(struct pollfd *fds, nfds_t nfds, int timeout)
 	kcall();
 	int idle = 0;
 	int r = __real_poll(fds, nfds, 0);
-	if (r == 0) { idle = 1; g_idle = 1; muggle_evloop_wakeup(g_ev); r = __real_poll(fds, nfds, 2000); }
+	if (r == 0 && !cfg_timer) { idle = 1; g_idle = 1; muggle_evloop_wakeup(g_ev); r = __real_poll(fds, nfds, 2000); }
 	printf("K idle=%d in=", idle);
 	for (nfds_t i = 0; i < nfds; i++) printf("%s%d", i ? "," : "", idof(fds[i].fd));
 	printf(" out=");
@@ -312,7 +387,7 @@ int __wrap_poll(struct pollfd *fds, nfds_t nfds, int timeout)
 	first = 1;
 	if (r > 0) for (nfds_t i = 0; i < nfds; i++) if (fds[i].revents) { printf("%s%d:%d", first ? "" : ",", idof(fds[i].fd), evflags_poll(fds[i].revents)); first = 0; }
 	printf(" n=%d\n", r);
-	if (r == 0) stuck();
+	if (r == 0 && !cfg_timer) stuck();
 	return r;
 }
 
@@ -332,7 +407,7 @@ int __wrap_select(int nfds, fd_set *rs, fd_set *ws, fd_set *es, struct timeval *
 	struct timeval z = { 0, 0 };
 	int idle = 0;
 	int r = __real_select(nfds, rs, ws, es, &z);
-	if (r == 0) {
+	if (r == 0 && !cfg_timer) {
 		idle = 1; g_idle = 1; muggle_evloop_wakeup(g_ev);
 		*rs = in; z.tv_sec = 2; z.tv_usec = 0;
 		r = __real_select(nfds, rs, ws, es, &z);
@@ -342,7 +417,7 @@ int __wrap_select(int nfds, fd_set *rs, fd_set *ws, fd_set *es, struct timeval *
 	printf(" n=%d\n", r);
 	printf("Q idle=%d out=", idle); if (r > 0) print_set(nfds, rs, 1);
 	printf(" n=%d\n", r);
-	if (r == 0) stuck();
+	if (r == 0 && !cfg_timer) stuck();
 	return r;
 }
 
@@ -361,7 +436,7 @@ int __wrap_epoll_wait(int epfd, struct epoll_event *events, int maxevents, int t
 	kcall();
 	int idle = 0;
 	int r = __real_epoll_wait(epfd, events, maxevents, 0);
-	if (r == 0) { idle = 1; g_idle = 1; muggle_evloop_wakeup(g_ev); r = __real_epoll_wait(epfd, events, maxevents, 2000); }
+	if (r == 0 && !cfg_timer) { idle = 1; g_idle = 1; muggle_evloop_wakeup(g_ev); r = __real_epoll_wait(epfd, events, maxevents, 2000); }
 	printf("K idle=%d in=", idle);
 	int first = 1;
 	for (int id = 0; id < MAXC; id++) if (ep_reg[id]) { printf("%s%d", first ? "" : ",", id); first = 0; }
@@ -380,7 +455,7 @@ int __wrap_epoll_wait(int epfd, struct epoll_event *events, int maxevents, int t
 		}
 		printf(" n=%d\n", r);
 	}
-	if (r == 0) stuck();
+	if (r == 0 && !cfg_timer) stuck();
 	return r;
 }
 
@@ -411,7 +486,8 @@ static void run_one(int be)
 	muggle_evloop_set_cb_wake(g_ev, on_wake);
 	muggle_evloop_set_cb_clear(g_ev, on_clear);
 	muggle_evloop_set_cb_exit(g_ev, on_exit_cb);
-	g_idle = 0; g_phase = 0; g_be = be; g_stuck = 0; g_kcalls = 0;
+	if (cfg_timer) { muggle_evloop_set_timer_interval(g_ev, 0); muggle_evloop_set_cb_timer(g_ev, on_timer); }
+	g_idle = 0; g_phase = 0; g_be = be; g_stuck = 0; g_kcalls = 0; g_tphase = 0;
 	run_phase(0);
 	g_loop_active = 1;
 	muggle_evloop_run(g_ev);
@@ -431,8 +507,117 @@ cleanup:
 	}
 }
 
+/* ------------------------------------------------------------------ edge scenarios
+ * n unix-socket contexts 1..n (peer closed for the ids in `closed`, 5 bytes pending for the ids in `data`), all
+ * registered before run; optionally a regular (empty) file as context n+1 (epoll refuses it: EPERM), a second context
+ * n+2 on the descriptor of context 1 (epoll only: EEXIST), a registration attempted from a foreign thread (n+3).
+ * Every subset of the callbacks {r,c,w,x,e,t} may be left NULL (nocb=).  A timer of interval 0 is set; with a timer
+ * callback it requests exit at tick `ticks`, without one the exit is requested before run (one pass).  After run the
+ * loop's ctx_list is printed ("L id"): what the loop still holds, independent of any callback. */
+static void e_read(muggle_event_loop_t *ev, muggle_event_context_t *ctx)
+{
+	C *x = (C *)ctx; char buf[256]; long got = 0; int n;
+	while ((n = muggle_ev_ctx_read(ctx, buf, sizeof buf)) > 0) got += n;
+	x->offered += got;
+	printf("r %d %ld\n", x->id, got);
+}
+static void e_close(muggle_event_loop_t *ev, muggle_event_context_t *ctx) { C *x = (C *)ctx; x->closed_cb++; printf("c %d\n", x->id); }
+static void e_clear(muggle_event_loop_t *ev, muggle_event_context_t *ctx) { C *x = (C *)ctx; x->clear_cb++; printf("x %d\n", x->id); }
+static void e_exit(muggle_event_loop_t *ev) { printf("e\n"); }
+static void e_wake(muggle_event_loop_t *ev) { printf("w\n"); }
+static void e_timer(muggle_event_loop_t *ev)
+{
+	printf("t\n");
+	if (++e_tick_seen == e_ticks) { muggle_evloop_exit(ev); printf("a exit ok\n"); }
+}
+static int e_foreign_rc;
+static void *e_foreign_thread(void *arg) { e_foreign_rc = muggle_evloop_add_ctx(g_ev, (muggle_event_context_t *)arg); return NULL; }
+
+static void run_edge(int be)
+{
+	printf("B %s\n", be_name[be]);
+	for (int i = 0; i < MAXFD; i++) fd2id[i] = -1;
+	memset(ep_reg, 0, sizeof ep_reg);
+	memset(cs, 0, sizeof cs);
+	int nall = e_n + 3;
+	for (int i = 1; i <= nall; i++) { cs[i].id = i; cs[i].fd = -1; cs[i].kind = K_UNIX; }
+	for (int i = 1; i <= e_n; i++) { cs[i].declared = 1; cs[i].peer_open = 1; mkpair(&cs[i]); muggle_ev_ctx_init(&cs[i].ctx, cs[i].fd, &cs[i]); }
+	muggle_event_loop_init_args_t args; memset(&args, 0, sizeof args);
+	args.evloop_type = be; args.hints_max_fd = cfg_hints; args.use_mem_pool = cfg_pool;
+	g_ev = muggle_evloop_new(&args);
+	if (!g_ev) { printf("new fail\n"); goto cleanup; }
+	fd2id[muggle_ev_signal_rfd(g_ev->ev_signal)] = 0;
+	if (e_has('r')) muggle_evloop_set_cb_read(g_ev, e_read);
+	if (e_has('c')) muggle_evloop_set_cb_close(g_ev, e_close);
+	if (e_has('w')) muggle_evloop_set_cb_wake(g_ev, e_wake);
+	if (e_has('x')) muggle_evloop_set_cb_clear(g_ev, e_clear);
+	if (e_has('e')) muggle_evloop_set_cb_exit(g_ev, e_exit);
+	if (e_has('t')) muggle_evloop_set_cb_timer(g_ev, e_timer);
+	muggle_evloop_set_timer_interval(g_ev, 0);
+	cfg_timer = 1; g_be = be; g_kcalls = 0; g_stuck = 0; g_idle = 0; e_tick_seen = 0;
+	for (int i = 1; i <= e_n; i++) {
+		int rc = muggle_evloop_add_ctx(g_ev, &cs[i].ctx);
+		cs[i].added = 1; cs[i].reg_ok = rc == 0;
+		printf("A %d rc=%d\n", i, rc);
+	}
+	for (int i = 1; i <= e_n; i++) {
+		if (e_data & (1 << (i - 1))) { ssize_t r = write(cs[i].peer, "12345", 5); (void)r; }
+		if (e_closed & (1 << (i - 1))) { close(cs[i].peer); cs[i].peer_open = 0; }
+	}
+	if (e_file) {
+		C *c = &cs[e_n + 1];
+		char path[] = "/tmp/c13edgeXXXXXX";
+		c->fd = mkstemp(path); if (c->fd < 0 || c->fd >= MAXFD) die("mkstemp");
+		unlink(path);
+		c->declared = 1; fd2id[c->fd] = c->id;
+		muggle_ev_ctx_init(&c->ctx, c->fd, c);
+		int rc = muggle_evloop_add_ctx(g_ev, &c->ctx);
+		c->added = 1; c->reg_ok = rc == 0;
+		printf("A %d rc=%d file\n", c->id, rc);
+	}
+	if (e_dup && be == 3) {
+		C *c = &cs[e_n + 2];
+		c->declared = 1;
+		muggle_ev_ctx_init(&c->ctx, cs[1].fd, c);
+		int rc = muggle_evloop_add_ctx(g_ev, &c->ctx);
+		c->added = 1; c->reg_ok = rc == 0;
+		printf("A %d rc=%d dup\n", c->id, rc);
+	}
+	if (e_foreign) {
+		C *c = &cs[e_n + 3];
+		c->declared = 1; c->peer_open = 1; mkpair(c); muggle_ev_ctx_init(&c->ctx, c->fd, c);
+		pthread_t th; e_foreign_rc = 99;
+		if (pthread_create(&th, NULL, e_foreign_thread, &c->ctx)) die("pthread_create");
+		pthread_join(th, NULL);
+		c->added = 1; c->reg_ok = e_foreign_rc == 0;
+		printf("A %d rc=%d foreign\n", c->id, e_foreign_rc);
+	}
+	if (!e_has('t')) { muggle_evloop_exit(g_ev); printf("a exit ok\n"); }
+	g_loop_active = 1;
+	muggle_evloop_run(g_ev);
+	g_loop_active = 0;
+	for (muggle_linked_list_node_t *nd = muggle_linked_list_first(g_ev->ctx_list); nd; nd = muggle_linked_list_next(g_ev->ctx_list, nd))
+		printf("L %d\n", ((C *)nd->data)->id);
+	for (int i = 1; i <= nall; i++) if (cs[i].declared)
+		printf("F %d off=%ld cc=%d xc=%d\n", cs[i].id, cs[i].offered, cs[i].closed_cb, cs[i].clear_cb);
+	muggle_evloop_delete(g_ev);
+cleanup:
+	g_ev = NULL; cfg_timer = 0;
+	for (int i = 1; i <= nall; i++) {
+		if (i != e_n + 2 && cs[i].fd >= 0) close(cs[i].fd);
+		if (cs[i].peer_open) close(cs[i].peer);
+		cs[i].fd = -1; cs[i].peer_open = 0;
+	}
+}
+
 static void case_end(void)
 {
+	if (is_edge) {
+		printf("EDGE\n");
+		for (int be = 1; be <= 3; be++) run_edge(be);
+		alarm(0);
+		return;
+	}
 	qsort(trigs, (size_t)ntrig, sizeof(Trig), trig_cmp);
 	for (int be = 1; be <= 3; be++) run_one(be);
 	alarm(0);
